@@ -108,7 +108,24 @@ namespace opensmt::tokens {
         "simplify",
         "write-funs",
         "let",
-        "echo"
+        "echo",
+        // reserved words of SMT-LIB 2.6 and of the lexer that are not command tokens of the API
+        "_",
+        "!",
+        "BINARY",
+        "DECIMAL",
+        "HEXADECIMAL",
+        "NUMERAL",
+        "STRING",
+        "match",
+        "check-sat-assuming",
+        "declare-datatype",
+        "declare-datatypes",
+        "define-fun-rec",
+        "define-funs-rec",
+        "get-unsat-assumptions",
+        "reset",
+        "reset-assertions"
     };
     inline const std::unordered_map<token, std::string> tokenToName = {
         {t_none, "none"},
